@@ -288,9 +288,42 @@ pub fn any_linked2<R, const S: usize, const F: usize, const N1: usize, const N2:
 where
     R: Registry,
 {
-    let row_slot1: [usize; N1] = kani::any();
-    let row_slot2: [usize; N2] = kani::any();
-    let free_arr: [usize; F] = kani::any();
+    any_linked2_with::<R, S, F, N1, N2>(ref1, ref2, other_ref, false)
+}
+
+/// As `any_linked2`; with `identity_layout` the slot assignment is the concrete identity layout
+/// (rows of the first archetype in slots 0.., then the second archetype's, then the free slots in
+/// order) and only generations and unrelated locations stay symbolic.  Used by the World-level
+/// harnesses, where a symbolic slot assignment makes the archetype operated on a symbolic object.
+pub fn any_linked2_with<R, const S: usize, const F: usize, const N1: usize, const N2: usize>(
+    ref1: archetype::IdentifierRef<R>,
+    ref2: archetype::IdentifierRef<R>,
+    other_ref: archetype::IdentifierRef<R>,
+    identity_layout: bool,
+) -> (Allocator<R>, [entity::Identifier; N1], [entity::Identifier; N2], [usize; F])
+where
+    R: Registry,
+{
+    let mut row_slot1: [usize; N1] = if identity_layout { [0; N1] } else { kani::any() };
+    let mut row_slot2: [usize; N2] = if identity_layout { [0; N2] } else { kani::any() };
+    let mut free_arr: [usize; F] = if identity_layout { [0; F] } else { kani::any() };
+    if identity_layout {
+        let mut i = 0;
+        while i < N1 {
+            row_slot1[i] = i;
+            i += 1;
+        }
+        let mut i = 0;
+        while i < N2 {
+            row_slot2[i] = N1 + i;
+            i += 1;
+        }
+        let mut i = 0;
+        while i < F {
+            free_arr[i] = N1 + N2 + i;
+            i += 1;
+        }
+    }
     let mut i = 0;
     while i < N1 {
         kani::assume(row_slot1[i] < S);
@@ -430,6 +463,88 @@ where
             if l.identifier.verif_pointer() == p {
                 c += 1;
             }
+        }
+        i += 1;
+    }
+    c
+}
+
+// ------------------------------------------------------------------------------------------
+// Capped variants for states whose sizes are not constants for the symbolic executor (anything
+// read back from heap storage after a symbolic operation): every loop runs to a constant cap with
+// a guard.
+// ------------------------------------------------------------------------------------------
+
+pub fn link_ok_capped<R, const ROWS: usize>(arch: &Archetype<R>, a: &Allocator<R>) -> bool
+where
+    R: Registry,
+{
+    let (ident, (idp, _), _cols, n) = arch.verif_raw();
+    let mut ok = n <= ROWS;
+    let mut r = 0;
+    while r < ROWS {
+        if r < n {
+            // SAFETY: ArchInv.
+            let id = unsafe { *idp.add(r) };
+            match a.get(id) {
+                Some(l) => {
+                    if l.index != r || l.identifier.verif_pointer() != ident.verif_raw().0 as *const u8 {
+                        ok = false;
+                    }
+                }
+                None => ok = false,
+            }
+        }
+        r += 1;
+    }
+    ok
+}
+
+pub fn alloc_inv_capped<R, const SLOTS: usize>(a: &Allocator<R>) -> bool
+where
+    R: Registry,
+{
+    let n = a.slots.len();
+    let f = a.free.len();
+    let mut ok = n <= SLOTS && f <= n;
+    let mut i = 0;
+    while i < SLOTS {
+        if i < f {
+            let x = a.free[i];
+            if x >= n || a.slots[x].location.is_some() {
+                ok = false;
+            }
+            let mut j = 0;
+            while j < SLOTS {
+                if j < i && a.free[j] == x {
+                    ok = false;
+                }
+                j += 1;
+            }
+        }
+        i += 1;
+    }
+    let mut inactive = 0;
+    let mut i = 0;
+    while i < SLOTS {
+        if i < n && a.slots[i].location.is_none() {
+            inactive += 1;
+        }
+        i += 1;
+    }
+    ok && inactive == f
+}
+
+pub fn active_slots_capped<R, const SLOTS: usize>(a: &Allocator<R>) -> usize
+where
+    R: Registry,
+{
+    let n = a.slots.len();
+    let mut c = 0;
+    let mut i = 0;
+    while i < SLOTS {
+        if i < n && a.slots[i].location.is_some() {
+            c += 1;
         }
         i += 1;
     }
